@@ -209,6 +209,10 @@ def _binary(interp, name, args, kw, st, node):
     a, b = arrv(args[0]), arrv(args[1])
     res = A.binop(interp, _BINARY[base], a, b, st, node)
     out = kw.get("out") or (args[2] if len(args) > 2 else None)
+    wh = kw.get("where")
+    if wh is not None and wh.kind != "none" and not (wh.has_const and wh.const is True):
+        prev = out.term if out is not None and out.kind != "none" else T("uninitialised")
+        res = res.replace(term=T("where3", wh.term, res.term, prev), labels=res.labels | wh.labels)
     return _handle_out(interp, res, out, st, node)
 
 
@@ -375,6 +379,20 @@ def np_argsort(interp, name, args, kw, st, node):
     at = axis_term(b.get("axis"), len(sh) if sh is not None else None)
     if at is not None and not (sh is not None and len(sh) == 1):
         parts.append(("axis", at))
+    if base.startswith("flip") and sh is not None:
+        ax = axis_of(b.get("axis"), len(sh))
+        if base == "flipud":
+            ax = 0
+        elif base == "fliplr":
+            ax = 1
+        if ax is None and len(sh) == 1:
+            ax = 0
+        if isinstance(ax, int) and ax < len(sh):
+            none = T("const", None)
+            rev = T("slice", none, none, const(-1))
+            full = T("slice", none, none, none)
+            it = rev if ax == 0 else T("tuple", *([full] * ax), rev)
+            return V("arr", T("getitem", x.term, it), shape=sh, orig=x.orig, labels=x.labels, loc=x.loc, extra=x.extra if isinstance(x.extra, str) else None)
     v = fresh_arr(T(base, *parts), sh, x.labels, "int" if base == "argsort" else (x.extra if isinstance(x.extra, str) else None))
     if base.startswith("flip"):
         v.orig = x.orig  # view
@@ -382,7 +400,13 @@ def np_argsort(interp, name, args, kw, st, node):
     return v
 
 
-@reg("numpy.unique", "numpy.setdiff1d", "numpy.intersect1d", "numpy.union1d", "numpy.flatnonzero")
+@reg("numpy.flatnonzero")
+def np_flatnonzero(interp, name, args, kw, st, node):
+    x = arrv(args[0])
+    return fresh_arr(T("nonzero1", x.term), (Dim.unknown("where"),), x.labels, "int")
+
+
+@reg("numpy.unique", "numpy.setdiff1d", "numpy.intersect1d", "numpy.union1d")
 def np_unique(interp, name, args, kw, st, node):
     base = name.rsplit(".", 1)[1]
     return fresh_arr(T(base, *[arrv(a).term for a in args]), (Dim.unknown(base),), _L(*args), "int")
@@ -394,7 +418,7 @@ def np_where(interp, name, args, kw, st, node):
         x = arrv(args[0])
         sh = shape(x)
         rank = len(sh) if sh is not None else 1
-        items = [fresh_arr(T("where", x.term, const(i)) if rank > 1 else T("where", x.term), (Dim.unknown("where"),), x.labels, "int") for i in range(rank)]
+        items = [fresh_arr(T("where", x.term, const(i)) if rank > 1 else T("nonzero1", x.term), (Dim.unknown("where"),), x.labels, "int") for i in range(rank)]
         return interp.mk_tuple(items)
     c, a, b = [arrv(x) for x in args[:3]]
     sh = A.broadcast(interp, A.broadcast(interp, shape(c), shape(a), st, node, what="where"), shape(b), st, node, what="where")
@@ -567,6 +591,18 @@ def np_pad(interp, name, args, kw, st, node):
     if cv is not None and not (cv.has_const and cv.const in (0, 0.0)):
         extra_t.append(("constant_values", cv.term))
     term = T("pad", x.term, *(wterms if wterms is not None else [pw.term]), *extra_t)
+    if nsh is not None and wterms is not None and not extra_t and sh is not None:
+        # zero padding at the end of exactly one axis is a concatenation with a zero block
+        lows = [t.args[0] for t in wterms]
+        highs = [t.args[1] for t in wterms]
+        zero = const(0)
+        nz = [i for i, h in enumerate(highs) if h != zero]
+        if all(lo == zero for lo in lows) and len(nz) <= 1:
+            if not nz:
+                return x
+            ax = nz[0]
+            blk = tuple(highs[ax] if i == ax else A.dim_term(d) for i, d in enumerate(sh))
+            term = T("stack", const(ax), x.term, T("zeros", *blk))
     return fresh_arr(term, nsh if nsh is not None else (None if sh is None else tuple(Dim.unknown("pad") for _ in sh)), x.labels | (pw.labels if pw is not None else frozenset()))
 
 
